@@ -298,6 +298,9 @@ def directed_cases(ck):
     # C12-N13 (open): a row of a relation literal that is not a tuple
     for src in ("from [{a = 1}, 2]", "from [{a = 1}, \"x\"]", "from [{a = 1}, [2]]"):
         add("N13:row", "compile", src, target="sql.generic")
+    # C12-N14 (open): a lambda without parameters around a transform
+    for src in ("from t | -> take 5", "from t | (-> derive {x = 1})", "from t | func -> append u"):
+        add("N14:lambda", "compile", src, target="sql.generic")
     # F29 (456bdcd), lowering / from_text panics (7911778, 287b286, 8204886): the programs are in c12_streams.EXTRA_PROGRAMS
     # C12-N5 (222f71a): i64::MIN under a negation -- PL from JSON (constant folding) ...
     w5 = harness("pl", [{"src": "from t | window rows:-1..1 (derive {s = sum b})"}])[0]
